@@ -323,9 +323,15 @@ def annotate_file(src, fspec, relfile):
                     repls.append((toks[cl.bar1].start, toks[cl.bar2].end, "\n".join(marked) + "\n{ "))
                     ins(toks[cl.body_end].end, " }", order=-9)
                 elif b.kind == "replace":
-                    rx = re.compile(b.arg.strip()[1:-1])
+                    arg_ = b.arg.strip()
+                    opt_ = arg_.startswith("optional ")
+                    if opt_:
+                        arg_ = arg_[9:].strip()
+                    rx = re.compile(arg_[1:-1])
                     body = src[item_s:item_e]
                     ms = list(rx.finditer(body))
+                    if opt_ and not ms:
+                        continue
                     if len(ms) != 1:
                         raise AnchorLost("%s: `%s`: rewrite /%s/ matched %d times" % (relfile, fs.path, rx.pattern, len(ms)))
                     repls.append((item_s + ms[0].start(), item_s + ms[0].end(), ms[0].expand("\n".join(lines))))
@@ -531,6 +537,22 @@ def annotate_file(src, fspec, relfile):
                         twin_texts.append(v)
                 else:
                     twin_texts.append(tw)
+                if not fspec.wrap:
+                    # facade method: other twins may call it; its contract (proved on the twin, same body) is
+                    # attached to the method itself as an assumed specification
+                    tt, tf = rustlex.index_functions(tw)
+                    tfn = [x for x in tf if x.name.startswith("twin_")][0]
+                    head = tw[tt[tfn.fn_tok].start:tt[tfn.body_open].start].rstrip()
+                    if head.endswith(","):
+                        head = head[:-1]
+                    tname = "twin_" + "_".join(f2.container + [f2.name])
+                    target = "crate::" + _module_path(relfile) + "::" + "::".join(f2.container + [f2.name])
+                    gen_end = head.index("(")
+                    gens = head[len("fn " + tname):gen_end].strip()
+                    gens = "" if gens == "<>" else gens
+                    head2 = "pub assume_specification%s [%s] %s" % (gens, target, head[gen_end:])
+                    head2 = re.sub(r"/\*@V:[^*]*\*/", "", head2)
+                    twin_texts.append("// contract of the facade method = contract proved on its twin\n" + head2 + ";")
             if fs.drop_body:
                 drops.append((toks2[f2.body_open].start, toks2[f2.body_close].end))
         for a, b in sorted(drops, reverse=True):
@@ -574,6 +596,14 @@ def _bytestr_to_array(text, wrap_from):
                 rep = "&[" + ", ".join(("%du8" % b) if i == 0 else str(b) for i, b in enumerate(bs)) + "]"
             out = out[:t.start] + rep + out[t.end:]
     return out
+
+
+def _module_path(relfile):
+    p_ = relfile.split("crates/core/src/")[1][:-3]
+    parts_ = p_.split("/")
+    if parts_[-1] == "mod":
+        parts_ = parts_[:-1]
+    return "::".join(parts_)
 
 
 def make_twin(text, toks, f, fs):
